@@ -32,7 +32,7 @@ claim(
     "diff's after-operand is the written payload and its before-operand is a read of the written path; an assumption-pruned "
     "must/may event analysis over every exit shows 'ChangeSet returned <=> file written (when not dry)' and 'None => nothing written'; "
     "the libcst ChangeSet is dominated by non-empty changes and diff; text-mode read-modify-write (CRLF loss) is reported.",
-    "Structural necessary conditions only; libcst round-trip and difflib hunk arithmetic are trusted; 4 known findings (CRLF manifests) are listed in known_findings.json.",
+    "Structural necessary conditions only; libcst round-trip and difflib hunk arithmetic are trusted; the CRLF-manifest defect was repaired (fixed entries in known_findings.json).",
     "def-use provenance + path-sensitive must/may event dataflow over the 7 read-diff-write sites",
     "DESIGN.md 5/C03",
 )
@@ -118,7 +118,7 @@ claim(
     "calls and hook returns that replace or remove a node - is shown to be reached only under a result-based gate, using a role-based facts "
     "analysis with helper call-site meets, driven helper visitors, gated collections and predicates; _process_file's per-rule/per-file lookup "
     "and short-circuit, every Change's findings lookup and requested rules = tool rule ids are checked.",
-    "Column arithmetic of match_location against real tool output is not claimed; 7 known findings (3 transformers without result gate) are listed.",
+    "Column arithmetic of match_location against real tool output is not claimed; 2 known finding keys remain (RemoveCsrfExemptTransformer has no result gate), 5 were repaired.",
     "role-based must-dataflow of gate facts over all hooks of all registered transformers (interprocedural entry facts, gated collections)",
     "DESIGN.md 5/C06",
 )
@@ -137,7 +137,7 @@ claim(
     "the line filter (role-based gate analysis); the filter's argument is a position at every call site; file_line_patterns and match_files use "
     "the same path base; every implementation of the line filter computes the same truth table (exclude-first / include / default true); positions are never requested for rebuilt nodes; "
     "line_include/line_exclude arguments bind to parameters of the same role.",
-    "fnmatch semantics of pattern spellings and multi-line constructs are not claimed; 18 known findings (6 transformers without line gate) are listed.",
+    "fnmatch semantics of pattern spellings and multi-line constructs are not claimed; 2 known finding keys remain (DjangoSessionCookieSecureOff.leave_Module appends at end of file), 16 were repaired.",
     "role-based must-dataflow of gate facts over all hooks + sibling AST comparison + argument provenance",
     "DESIGN.md 5/C13",
 )
@@ -147,7 +147,7 @@ claim(
     "with the non-empty result of add(), add() appends and registers only under `not has_requirement`, both notices keyed by codemod id; plus the "
     "shared write-discipline rules for the four writers (diff/write agreement, dry-run threading, newline-lossless I/O, ordered symlink-free "
     "manifest enumeration).",
-    "Validity/preservation of arbitrary manifest texts under the writers' text surgery is not claimed; 4 known findings (CRLF) are listed.",
+    "Validity/preservation of arbitrary manifest texts under the writers' text surgery is not claimed; the CRLF defect was repaired (fixed entries).",
     "must/may event dataflow over the store loop + dominance facts + shared write-discipline rules",
     "DESIGN.md 5/C14",
 )
